@@ -314,7 +314,7 @@ def generate(rng, tier):
             op["n"][rng.randrange(3)] -= 1
         cases.append(dict(kind="resample", field=f, ops=[op], style=rng.random() < 0.5))
     # (h) larger meshes: oracle only (interior / outside / composition clauses), no Coq record
-    for _ in range(40 if quick else 300):
+    for _ in range(100 if quick else 600):
         f = gen_field(rng, tier, nmax=8, big=400)
         cases.append(dict(kind="rot", field=f, ops=gen_ops(rng, tier), style=rng.random() < 0.5, nocoq=True))
     # (f) refusals
